@@ -17,6 +17,14 @@ def P(variants, quick_s, thorough_s, rule, probes=None, probes_thorough=None, as
     return d
 
 PROPS = {
+    "C11": P(["asan"], 30, 900,
+             "plans = 1..4 init/register/parse/free cycles; files are arbitrary byte strings or metacharacter-rich config text (NULs, lines of 20470..20482 and 41000 bytes, missing final newline, "
+             "300 unmatched begin lines, empty file, bad magic, %include/%put/%get/%random/%dirscan/$VAR/~ and, in a quarter of the runs, %exec/backquote/%preproc), 0..200 contexts, 7..13 built-ins, "
+             "spifconf_find_file with file/dir/pathlist strings up to 40000 bytes, spiftool_temp_file under a libc that creates with 0600 or 0666&~umask, direct expansions up to the 20 kB limit; "
+             "oracle = ASan/allocator verdict, step and CPU budgets, spawn census, temp-file mode/uniqueness census, allocator ledger at spifconf_free_subsystem, equal handler traces for repeated cycles; "
+             "distinct = distinct trace hash; non-trivial = >= 3 ops",
+             probes=["lifecycle_cycle_completed", "repeated_cycle_compared", "builtin_table_grew", "empty_file", "nul_in_file", "line_over_limit", "line_near_limit", "contexts_crossed_160",
+                     "spawn_by_directive", "vars_defined", "second_cycle_uses_vars", "find_file_found", "path_component_over_limits", "temp_file_created"]),
     "C09": P(["plain"], 30, 900,
              "plans = a simulated file tree (root + include files, include chains up to 200 deep, files without magic, missing files) over the line grammar "
              "comment | blank | begin NAME | end [junk] | %include F | text, nesting depth biased to 9..11, 19..21, 39..41, 79..81, 159..161, 200, 255, 0..200 registered contexts bound to 8 recording handlers, "
